@@ -32,6 +32,7 @@ func runC04(c *Ctx) {
 	ruleNoAsyncConn(c, p, "C04.async")
 	rulePacketDeadline(c, p, "C04.deadline")
 	ruleDeadlineDisarmed(c, p, "C04.disarm")
+	ruleCodeWidth(c, p, "C04.codewidth")
 	_ = cfg
 	c.R.Assumptions = append(c.R.Assumptions,
 		"errgroup cancels the shared context when a goroutine returns a non-nil error (x/sync contract)",
@@ -560,6 +561,27 @@ func ruleWatch(c *Ctx, p *core.Program, r *doRoles, prop string) {
 				if len(edges) == 0 || !core.OnlyViaEdges(fn, in, edges) {
 					c.R.Bad(rule, core.CallKey(fn, call), cfg, p.Pos(in.Pos()), "gotException.Store is reachable without IsException(err) being true")
 					continue
+				}
+				// the exception must be the one decoded from THIS connection: the store also lies behind a test
+				// that the packet code is ServerCodeException - a user callback (OnProgress, OnLogs, ...) may fail
+				// with an error that wraps a *ch.Exception of its own (a nested query on another client)
+				excK, _ := constOf(p, core.PkgProto, "ServerCodeException")
+				codeEdges := core.CondEdges(fn, true, func(cond ssa.Value) (bool, bool) {
+					bo, ok := cond.(*ssa.BinOp)
+					if !ok || (bo.Op != token.EQL && bo.Op != token.NEQ) {
+						return false, false
+					}
+					for _, pair := range [][2]ssa.Value{{bo.X, bo.Y}, {bo.Y, bo.X}} {
+						if k, okc := core.ConstInt(pair[1]); okc && k == excK && core.IsNamed(pair[0].Type(), core.PkgProto, "ServerCode") {
+							return bo.Op == token.EQL, true
+						}
+					}
+					return false, false
+				})
+				if len(codeEdges) == 0 || !core.OnlyViaEdges(fn, in, codeEdges) {
+					c.R.Bad(rule, core.CallKey(fn, call)+"/own", cfg, p.Pos(in.Pos()), "the flag that suppresses cancel+close is set for any error that wraps a *ch.Exception, whatever packet was being handled: a user callback failing with such an error (from a nested query on another client) leaves this client open in the middle of the server stream")
+				} else {
+					c.R.Ok(rule, core.CallKey(fn, call)+"/own", cfg, p.Pos(in.Pos()), "only while handling a ServerCodeException packet")
 				}
 				c.R.Ok(rule, core.CallKey(fn, call), cfg, p.Pos(in.Pos()), "Store(true) only under IsException(err)")
 			}
